@@ -226,6 +226,9 @@ def run(repo, rep):
     rep.clause("C06-g", "alignment / length checks dominate the emissions they protect")
     rep.clause("C06-h", "exactly one NPU_OP_STOP, after the operation loop, nothing emitted after it")
     rep.undecided("value fidelity for run-time magnitudes (silent & 0xFFFF truncation of oversized fields), decoded-equals-input for every history")
+    from .shared import duplicate_branch_lint
+
+    duplicate_branch_lint(repo, rep, "C06-e", ['register_command_stream_generator', 'register_command_stream_util', 'high_level_command_to_npu_op'])
     rep.assume("Python asserts are enabled (Vela is not run with -O)")
 
     cmd0 = _members(repo, "ethos_u55_regs.ethos_u55_regs", "cmd0")
